@@ -21,8 +21,11 @@ character) admitted as atom and quoted-text character (not after a backslash), I
 SPECIALS = frozenset(b'()<>@,;:\\".[]')
 WS = frozenset(b' \t\r\n')
 RFC20 = frozenset(b'#^`{|}~')
-NA = 0x1000
-BAD = 0x1001
+NA = 0x1000        # NA .. NA+0xFF: a well-formed non-ASCII character (the offset is the class of its code point's low byte)
+BAD = 0x2000
+
+def is_na(b):
+    return 0x1000 <= b < 0x1100
 
 ATOM_SET = frozenset(b for b in range(0x21, 0x7f) if b not in SPECIALS)
 PRINT_SET = frozenset(range(0x20, 0x7f))
@@ -42,7 +45,7 @@ def local_spec(mode, utf8=False, rfc20=False):
     """-> (init, step, accepting, dead).  mode in (822, 5321, 5322)"""
     def step(st, b):
         if st == DEAD or b == BAD: return DEAD
-        na = (b == NA)
+        na = is_na(b)
         if na and not utf8: return DEAD
         if not na and b >= 0x80: return DEAD
         if isinstance(st, tuple):
